@@ -11,13 +11,13 @@ from collections import OrderedDict
 ID = "C17"
 
 RULE = ("each run = one operation history (construction + 3..25 mapping operations, keys from a pool of "
-        "40 spellings of 12 names incl. bytes (some with a UTF-8 byte order mark), sharp-s, dotless-i and digraph case variants) on one of "
+        "48 spellings of 15 names incl. bytes (some with a UTF-8 byte order mark), sharp-s, dotless-i and digraph case variants) on one of "
         "CaselessDict/Parameters/Component/Event/Calendar/Timezone, executed step by step against a "
         "reference dict keyed by to_unicode(key).upper(); non-trivial = the history reached at least one "
         "probe (case-variant hit, failing op checked for atomicity, derived object adopted, ...); distinct = "
         "distinct abstract histories (class, op kinds, key-case class and present/absent per step)")
-STATE_MEASURE = "distinct sets of upper-cased names stored (12 names -> 4096 possible)"
-STATE_SPACE = 4096
+STATE_MEASURE = "distinct sets of upper-cased names stored (15 names -> 32768 possible)"
+STATE_SPACE = 32768
 HARNESS_COMPONENTS = ["history generator", "reference dict model", "failing-iterable fault"]
 ASSUMPTIONS = [
     "pop(key) is compared with dict.pop(KEY, None): the classes declare default=None themselves",
@@ -42,7 +42,7 @@ REQUIRED_PROBES["thorough"] = REQUIRED_PROBES["quick"]
 
 CLASSES = ["CaselessDict", "Parameters", "Component", "Event", "Calendar", "Timezone"]
 
-# 40 spellings of 12 names
+# 48 spellings of 15 names
 NAMES = {
     "SUMMARY": [["s", "summary"], ["s", "SUMMARY"], ["s", "Summary"], ["s", "sUmMaRy"],
                 ["b", "summary"], ["b", "SUMMARY"], ["bom", "Summary"]],
@@ -57,6 +57,10 @@ NAMES = {
     # names that are also names of parameters of the mapping methods (a keyword argument must not bind to them)
     "OTHER": [["s", "other"], ["s", "OTHER"], ["s", "Other"]],
     "SELF": [["s", "self"], ["s", "Self"], ["b", "self"]],
+    # two names whose order depends on how the characters between 'Z' and 'a' compare with letters
+    "A_B": [["s", "a_b"], ["s", "A_B"], ["b", "A_b"]],
+    "AAB": [["s", "aab"], ["s", "AAB"], ["s", "Aab"]],
+    "A^": [["s", "a^"], ["s", "A^"]],
     # bytes that are not UTF-8: decoded with replacement characters (one per undecodable byte), like any other name
     "\ufffdX": [["s", "\ufffdx"], ["s", "\ufffdX"], ["braw", "ff78"], ["braw", "ff58"]],
 }
